@@ -33,9 +33,13 @@ from yabgp.api.app import app as FLASK_APP   # noqa: E402  (registers CLI option
 COQ_TARGETS = ['props/C19.vo']
 IMPORTS = 'From YV Require Import lib.Base model.YRib.\n'
 TRUSTED = [
-    "yabgp's Update.construct / Update.parse are used to build the UPDATE octets and to read back which "
-    "prefixes/rules/attributes a message carries (C19 is about the bookkeeping after decoding; the codecs are "
-    "C06/C07)",
+    "yabgp's Update.construct_attributes / Update.parse are used to build the path-attribute octets and to read "
+    "back the attribute values and MP rules a message carries (the codecs are C06/C07); the IPv4 prefix fields "
+    "are encoded by the harness itself (enc_prefix, RFC 4271 4.3, padding bits chosen by the generator) and the "
+    "oracle's routes are the intended prefixes, not what the decoder returned",
+    "the REST view's attribute rewriting is reproduced by the harness to form the model's input and the oracle's "
+    "expected Adj-RIB-Out value (effective_attr: default LOCAL_PREF 100 on an iBGP session when attributes are "
+    "present and carry none); that the view stores and compares exactly that is checked on every REST send",
     'interning of Python values into numbers (harness/props/c19.py canon/Intern): two attribute dictionaries get '
     'the same number iff their canonical renderings are equal; Python == on the attribute dictionaries is assumed '
     'to coincide with that (no NaN, no tuple-vs-list mixtures inside one run)',
@@ -1009,9 +1013,14 @@ def run(ctx):
                 'with each of the 16 subsets of {IPv4 nlri, withdraw, attribute 14, attribute 15} x the families '
                 'of 14 and 15 (same and different; 48 received / 80 sent letters) on empty tables, after a '
                 'set-up that fills every table, and followed by a withdrawal of what it should have removed '
-                '(thorough: IPv4 letters to length 4, all pairs of a 35-letter (received) and a 34-letter (sent) alphabet, all pairs of combined '
+                '(thorough: IPv4 letters to length 4, all pairs of a 38-letter (received) and a 36-letter (sent) alphabet, all pairs of combined '
                 'letters, every kind of end between/after all letter pairs), plus seeded random mixed traces '
-                'up to 40 events; every event is compared (whole state incl. the disconnected flag); a trace is '
+                'up to 40 events; received IPv4 prefixes of length 30, 23 and 1 with different padding bits in announce / '
+                're-announce / withdraw positions (14 letters: all traces to length 2, triples of 6); identical '
+                're-announcements with and without LOCAL_PREF (9 letters); a second peering in the iBGP '
+                'configuration (65001/65001; kinds ibgp/...) for the re-announcement traces, both exhaustive '
+                'alphabets to length 2, every kind of session end and a quarter of the random traces; every send '
+                'trace outside send-exhaustive also runs through the REST view; every event is compared (whole state incl. the disconnected flag); a trace is '
                 'non-trivial when some table or counter is non-empty/non-zero at some point; evaluations = events',
         'samples': [[describe(e) for e in c[1]] for c in
                     (cases[20], cases[500], first_of('recv-then-drop'), first_of('send-combined-then-withdraw'),
